@@ -413,8 +413,10 @@ def fn_value(f, x):
         raise EvalError('fn')
 
 
-def py_eval(e, sc, vc, trace=None, fnt=None, eager=False):
-    """value of the formula over Fractions; trace collects every intermediate value, fnt the (f, arg, value) triples"""
+def py_eval(e, sc, vc, trace=None, fnt=None, eager=False, karr=()):
+    """value of the formula over Fractions; trace collects every intermediate value, fnt the (f, arg, value) triples;
+    karr: ids of Sum nodes that follow the Karr convention over an empty range (sum_{lo}^{hi} = -sum_{hi+1}^{lo-1} for
+    hi < lo - 1), which is how sympy simplifies a Sum whose limits are numbers (finding sum-reversed-limits)"""
     def ev(e, sc):
         k = e[0]
         if k == 'c':
@@ -472,6 +474,11 @@ def py_eval(e, sc, vc, trace=None, fnt=None, eager=False):
             r = F(0)
             for kk in range(int(lo), int(hi) + 1):
                 r += ev(e[4], {**sc, e[1]: F(kk)})
+            if hi < lo - 1 and id(e) in karr:
+                if lo - hi > 64:
+                    raise EvalError('big')
+                for kk in range(int(hi) + 1, int(lo)):
+                    r -= ev(e[4], {**sc, e[1]: F(kk)})
         elif k == 'idx':
             if e[1] not in vc:
                 raise EvalError('unbound')
